@@ -6,6 +6,7 @@ import (
 	"go/constant"
 	"go/token"
 	"go/types"
+	"regexp"
 	"sort"
 	"strings"
 
@@ -338,17 +339,55 @@ func runC03(c *an.Ctx) {
 		sort.Strings(diff)
 		c.Check(shape && len(diff) == 0 && len(f.Body.List) == 1, "C03.space", "isSpace", f.Pos(), "the trim predicate is exactly {space, tab, CR, LF}", fmt.Sprintf("isSpace is not exactly the set {space, tab, CR, LF}: %v", diff))
 	}
-	for name, fn := range map[string]string{"leftTrimLength": "strings.TrimLeftFunc", "rightTrimLength": "strings.TrimRightFunc"} {
-		if f := c.Fn("C03.space", name); f != nil {
-			ok := false
-			if len(f.Body.List) == 1 {
-				if ret, isRet := f.Body.List[0].(*ast.ReturnStmt); isRet && an.Norm(f, ret.Results[0]) == "Pos((len($p0) - len("+fn+"($p0, isSpace))))" {
-					ok = true
-				}
-			}
-			c.Check(ok, "C03.space", name, f.Pos(), name+" measures the run of isSpace runes at that end", name+" is not len(s) - len("+fn+"(s, isSpace)): a different set of characters (or the wrong end) is trimmed")
+	// every measurement of a white-space run, wherever it is written (in the two helpers or inline), is
+	// len(X) - len(strings.Trim{Left,Right}Func(X, isSpace)) over one and the same X
+	nMeasure := map[string]int{}
+	for _, f := range p.Units() {
+		if f.Pkg != p.Jet || f.Body == nil {
+			continue
 		}
+		finfo := f.Info()
+		an.InspectOwn(f, func(n ast.Node) bool {
+			b, ok := n.(*ast.BinaryExpr)
+			if !ok || b.Op != token.SUB {
+				return true
+			}
+			lenOf := func(e ast.Expr) ast.Expr {
+				if call, ok := an.Unparen(e).(*ast.CallExpr); ok && an.IsCallTo(finfo, call, "builtin.len") && len(call.Args) == 1 {
+					return call.Args[0]
+				}
+				return nil
+			}
+			whole, trimmed := lenOf(b.X), lenOf(b.Y)
+			if whole == nil || trimmed == nil {
+				return true
+			}
+			tc, ok := an.Unparen(trimmed).(*ast.CallExpr)
+			if !ok {
+				return true
+			}
+			side := ""
+			switch an.CalleeName(finfo, tc) {
+			case "strings.TrimLeftFunc":
+				side = "left"
+			case "strings.TrimRightFunc":
+				side = "right"
+			default:
+				if strings.HasPrefix(an.CalleeName(finfo, tc), "strings.Trim") {
+					c.Bad("C03.space", f.Name+"/measure", tc.Pos(), nil, "%s measures a run to trim with %s, not with TrimLeftFunc/TrimRightFunc(·, isSpace): a different set of characters is trimmed", f.Name, an.Str(tc.Fun))
+				}
+				return true
+			}
+			nMeasure[side]++
+			okPred := len(tc.Args) == 2 && an.Str(tc.Args[1]) == "isSpace"
+			okSame := len(tc.Args) == 2 && an.Norm(f, tc.Args[0]) == an.Norm(f, whole)
+			c.Check(okPred && okSame, "C03.space", f.Name+"/measure-"+side, b.Pos(), "the "+side+" white-space run is len(s) - len(Trim(s, isSpace))",
+				f.Name+" does not measure the "+side+" run as len(s) - len(strings.Trim…Func(s, isSpace)) over the same s: a different set of characters (or another string) is measured")
+			return true
+		})
 	}
+	c.Expect("C03.space", "measurements of a leading white-space run", nMeasure["left"], 1)
+	c.Expect("C03.space", "measurements of a trailing white-space run", nMeasure["right"], 1)
 
 	// ---------------------------------------------------------------- C03.delims
 	defaults := map[string]bool{"defaultLeftDelim": true, "defaultRightDelim": true, "defaultLeftComment": true, "defaultRightComment": true}
@@ -528,15 +567,21 @@ func c03lexText(c *an.Ctx, f *an.Fn, ign *ast.CallExpr) {
 				return
 			}
 			// definitions of a trim-length variable
+			if vs, isSpec := stmt.(*ast.ValueSpec); isSpec && rhs == nil && len(vs.Values) == 0 {
+				if id, ok := an.Unparen(lhs).(*ast.Ident); ok {
+					st.Set("T:"+id.Name, "zero") // var trimLength Pos
+				}
+				return
+			}
 			if id, ok := an.Unparen(lhs).(*ast.Ident); ok && rhs != nil && isAs && (as.Tok == token.DEFINE || as.Tok == token.ASSIGN) {
 				kind := ""
 				r := an.Unparen(rhs)
 				if tv, ok := info.Types[r]; ok && tv.Value != nil && tv.Value.ExactString() == "0" {
 					kind = "zero"
 				}
-				if call, ok := r.(*ast.CallExpr); ok {
-					if an.CalleeName(info, call) == "jet.rightTrimLength" && len(call.Args) == 1 && strings.ReplaceAll(an.Norm(f, call.Args[0]), " ", "") == "$p0.input[$p0.start:$p0.pos]" {
-						kind = "other"
+				if side, operand, ok := trimMeasure(f, r); ok {
+					kind = "other"
+					if side == "right" && strings.ReplaceAll(operand, " ", "") == "$p0.input[$p0.start:$p0.pos]" {
 						for k, v := range st.Facts {
 							pk := an.PlainKey(k)
 							if v && strings.Contains(pk, "strings.HasPrefix(") && strings.HasSuffix(pk, "leftTrimMarker)") {
@@ -598,4 +643,20 @@ func c03lexText(c *an.Ctx, f *an.Fn, ign *ast.CallExpr) {
 	default:
 		c.OK("C03.drop", key, ign.Pos(), "before a left delimiter exactly the trimmed whitespace run is discarded, after the text before it was emitted")
 	}
+}
+
+var trimCallRe = regexp.MustCompile(`^(left|right)TrimLength\((.+)\)$`)
+var trimInlineRe = regexp.MustCompile(`^Pos\(\(len\((.+)\) - len\(strings\.Trim(Left|Right)Func\((.+), isSpace\)\)\)\)$`)
+
+// trimMeasure recognises the length of a white-space run at one end of a string, written through the
+// helpers leftTrimLength/rightTrimLength or inline; it returns the side and the normal form of the string.
+func trimMeasure(f *an.Fn, e ast.Expr) (side, operand string, ok bool) {
+	n := an.Norm(f, e)
+	if m := trimCallRe.FindStringSubmatch(n); m != nil {
+		return m[1], m[2], true
+	}
+	if m := trimInlineRe.FindStringSubmatch(n); m != nil && m[1] == m[3] {
+		return strings.ToLower(m[2]), m[1], true
+	}
+	return "", "", false
 }
